@@ -464,7 +464,11 @@ class Table(object):
         self.name, self.shape, self.dtype = name, tuple(shape), dtype or DT('float64')
         self.fn = fn        # optional python function index terms -> scalar term (default: uninterpreted)
 
+    WRAP_NEGATIVE = False       # NumPy's integer-array indexing wraps negative indices; switched on by the units that reach negative indices (fresh fork per unit)
+
     def value(self, idx):
+        if Table.WRAP_NEGATIVE:
+            idx = [core.s_if(S.lift(i) < 0, S.lift(i) + S.lift(n), S.lift(i)) if not isinstance(i, int) or i < 0 else i for i, n in zip(idx, self.shape)]
         if self.fn is not None:
             return self.fn(tuple(idx))
         f = core.uf(self.name, *([z3.IntSort()] * len(self.shape) + [z3.RealSort()]))
